@@ -16,7 +16,65 @@ def sh(cmd, cwd, timeout=3000):
     r = subprocess.run(cmd, cwd=cwd, shell=True, env=ENV, stdout=subprocess.PIPE, stderr=subprocess.STDOUT, text=True, timeout=timeout)
     return r.returncode, r.stdout
 
+KNOWN_FAIL = ("--- FAIL: Test_network_allowedPeer", "--- FAIL: Test_network_trustSeeds")
+
+
+def suite(wt):
+    """run the repository's whole suite in wt; -> (ok, detail, seconds). Unexpectedly failing packages are re-run alone."""
+    t0 = time.time()
+    rc, o = sh("go test -vet=off -count=1 -timeout 25m ./... 2>&1 | grep -v '^ok\\|no test files'", wt, timeout=4000)
+    lines = o.splitlines()
+    fails = [l for l in lines if l.startswith("--- FAIL") or l.startswith("FAIL") or "panic:" in l]
+    badpk = []
+    cur = []
+    for l in lines:
+        if l.startswith("--- FAIL"):
+            cur.append(l)
+        m = re.match(r"FAIL\t(\S+)", l)
+        if m:
+            unexpected = [c for c in cur if not c.startswith(KNOWN_FAIL)]
+            if unexpected or not cur:
+                badpk.append((m.group(1), unexpected))
+            cur = []
+    detail = "\n".join(fails)
+    still = []
+    for pk, tests in badpk:
+        rel = "./" + pk.split("github.com/icon-project/goloop/", 1)[-1]
+        okc = 0
+        for i in range(2):
+            rc2, o2 = sh("go test -vet=off -count=1 -timeout 25m %s 2>&1 | tail -30" % rel, wt, timeout=2000)
+            un = [l for l in o2.splitlines() if l.startswith("--- FAIL") and not l.startswith(KNOWN_FAIL)]
+            if not un and "panic:" not in o2 and "build failed" not in o2:
+                okc += 1
+        detail += "\nre-run of %s alone: %d/2 without unexpected failures" % (rel, okc)
+        if okc < 2:
+            still.append(pk)
+    return (not still), detail[-1500:], time.time() - t0
+
+
+def resuite(name):
+    out = os.path.join("/verif/seeded", name)
+    wt = "/tmp/rs-" + name
+    sh("git -C /repo worktree add --detach -q %s HEAD" % wt, "/")
+    try:
+        rc, o = sh("git apply %s" % os.path.join(out, "patch.diff"), wt)
+        if rc != 0:
+            print("patch does not apply", o); return 2
+        ok, detail, secs = suite(wt)
+    finally:
+        sh("git -C /repo worktree remove --force %s" % wt, "/")
+    mp = os.path.join(out, "meta.json")
+    m = json.load(open(mp))
+    m["ran"] = [r for r in m["ran"] if not r["step"].startswith("existing suite passes")]
+    m["ran"].append(dict(step="existing suite passes with the change (%.0fs; fresh worktree; baseline always-fail tests ignored; a package that fails is re-run alone twice to tell load flakes apart)" % secs, ok=ok, detail=detail))
+    json.dump(m, open(mp, "w"), indent=1)
+    print(name, "suite", "OK" if ok else "FAILS")
+    return 0
+
+
 def main():
+    if len(sys.argv) >= 3 and sys.argv[1] == "resuite":
+        return resuite(sys.argv[2])
     ap = argparse.ArgumentParser()
     ap.add_argument("cmd"); ap.add_argument("id"); ap.add_argument("name"); ap.add_argument("wt"); ap.add_argument("pkg"); ap.add_argument("run")
     ap.add_argument("--needs", default=""); ap.add_argument("--checks", default=""); ap.add_argument("--tier", default="quick")
@@ -41,21 +99,19 @@ def main():
         print(("OK   " if ok else "FAIL ") + what)
     rc, o = sh("go build ./... ", wt); rec("go build ./... with change", rc == 0, o)
     rc, o = sh(meta["demo_cmd"], wt); rec("demonstration fails with the change", rc != 0 and ("FAIL" in o), o)
-    sh("git stash -q", wt)
+    # NOT git stash: the stash is shared by all worktrees of a repository
+    sh("git apply -R %s" % os.path.join(out, "patch.diff"), wt)
     try:
         rc, o = sh(meta["demo_cmd"], wt); rec("demonstration passes without the change", rc == 0, o)
     finally:
-        sh("git stash pop -q", wt)
+        sh("git apply %s" % os.path.join(out, "patch.diff"), wt)
+    rc, now = sh("git diff", wt)
+    rec("worktree holds exactly the archived change again", now == patch)
     if not a.skip_suite:
-        # whole suite with the change, demo moved aside
         for f in demos: os.rename(os.path.join(wt, f), os.path.join(wt, f + ".aside"))
         try:
-            t0 = time.time()
-            rc, o = sh("go test -vet=off -count=1 -timeout 25m ./... 2>&1 | grep -v '^ok\\|no test files'", wt, timeout=4000)
-            fails = [l for l in o.splitlines() if l.startswith("--- FAIL") or l.startswith("FAIL")]
-            known = {"--- FAIL: Test_network_allowedPeer", "--- FAIL: Test_network_trustSeeds"}
-            bad = [l for l in fails if not any(l.startswith(k) for k in known) and l.strip() not in ("FAIL", "FAIL\tgithub.com/icon-project/goloop/network") and not l.startswith("FAIL\tgithub.com/icon-project/goloop/network\t")]
-            rec("existing suite passes with the change (%.0fs; baseline always-fail tests ignored)" % (time.time() - t0), not bad, "\n".join(fails))
+            ok, detail, secs = suite(wt)
+            rec("existing suite passes with the change (%.0fs; baseline always-fail tests ignored; a package that fails is re-run alone twice to tell load flakes apart)" % secs, ok, detail)
         finally:
             for f in demos: os.rename(os.path.join(wt, f + ".aside"), os.path.join(wt, f))
     checks = [] if a.no_checks else [c for c in (a.checks or a.id).split(",") if c]
